@@ -397,6 +397,8 @@ def run_unit(u, bdir):
                   "status": st, "function": loc.get("function"), "file": loc.get("file"),
                   "line": loc.get("line")}
             u.obligations.append(ob)
+            if st == "FAILURE" and ("unwinding assertion" in desc or (r.get("property") or "").split(".")[-2:-1] == ["unwind"]):
+                raise Undecided("unwinding bound too small: %s" % r.get("property"))
             if st == "FAILURE":
                 u.failed.append(ob)
                 if "trace" in r and not u.inputs:
@@ -479,21 +481,33 @@ def match_known(known, prop, u, ob):
 # Replay
 # --------------------------------------------------------------------------
 def native_replay(u, inputs, outdir, tag):
-    """u.replay = dict(src=path to C/C++ source, lang='c'|'c++', flags=[...]).
-    The program receives 'name=binaryString' arguments and exits 1 when the real
-    code violates the concrete oracle on that input, 0 when not reproduced."""
+    """u.replay = dict(src=C/C++ harness, lang='c'|'c++', flags=[...], cxx=[C++ files that provide
+    the real functions (shims)]).  The program receives 'name=binaryString' arguments and exits 1
+    when the real code violates the concrete oracle on that input, 0 when not reproduced."""
     rp = u.replay
     if not rp:
         return None, "no native replay registered for this unit"
     exe = os.path.join(outdir, tag + ".replay.bin")
-    cc = "g++" if rp.get("lang", "c") == "c++" else "gcc"
-    std = ["-std=c++17"] if cc == "g++" else ["-std=gnu11"]
-    cmd = [cc] + std + ["-O0", "-DVF_NATIVE", "-DVF_ENTRY=" + u.entry] + ["-D" + d for d in u.defines] \
-        + std_includes() + ["-I" + i for i in u.includes] + rp.get("flags", []) \
-        + [rp["src"]] + rp.get("extra_src", []) + ["-o", exe, "-lm"]
-    rc, so, se, dt = sh(cmd, timeout=600)
+    incs = std_includes() + ["-I" + i for i in u.includes] + ["-I" + i for i in rp.get("includes", [])]
+    defs = ["-DVF_NATIVE", "-DVF_ENTRY=" + u.entry] + ["-D" + d for d in u.defines]
+    objs = []
+    main_cc = ["g++", "-std=c++17"] if rp.get("lang", "c") == "c++" else ["gcc", "-std=gnu11"]
+    srcs = [(main_cc, rp["src"])] + [(["g++", "-std=c++17", "-fno-access-control", "-I/usr/include/python3.11"], c) for c in rp.get("cxx", [])]
+    for i, (cc, src) in enumerate(srcs):
+        o = os.path.join(outdir, "%s.%d.o" % (tag, i))
+        cmd = cc + ["-O0", "-w", "-ffp-contract=off"] + defs + incs + rp.get("flags", []) + ["-c", src, "-o", o]
+        rc, so, se, dt = sh(cmd, timeout=900)
+        if rc != 0:
+            return None, "replay build failed: " + se[-1500:]
+        objs.append(o)
+    rc, so, se, dt = sh(["g++"] + objs + ["-o", exe, "-lm"], timeout=300)
+    for o in objs:
+        try:
+            os.remove(o)
+        except OSError:
+            pass
     if rc != 0:
-        return None, "replay build failed: " + se[-1500:]
+        return None, "replay link failed: " + se[-1500:]
     args = ["%s=%s" % (k, v.get("binary") or v.get("data")) for k, v in sorted(inputs.items())]
     rc, so, se, dt = sh([exe] + args, timeout=120)
     try:
